@@ -4,6 +4,7 @@ import (
 	"encoding/binary"
 	"fmt"
 	"os"
+	"runtime"
 	"strings"
 
 	"verifharness/pkg/h"
@@ -71,6 +72,7 @@ type schedRun struct {
 	dead       bool
 	extra      []h.Violation // oracle findings recorded while the schedule runs
 	deadLabels []string      // what the blocked threads of a deadlocked schedule are waiting for
+	atRemoval  map[int]int   // updates a subscriber held when its RemoveSubscriber returned
 }
 
 // padBolt grows the file (and hence bbolt's mmap) once, before any reader can be parked inside a read
@@ -215,6 +217,19 @@ func (sr *schedRun) obs() string {
 		func() {
 			defer func() { recover() }()
 			seqs, ids := mercure.VerifBoltKeys(sr.bolt)
+			// the value stored under a key is the update that was accepted under that id
+			if ks, vs := mercure.VerifBoltValueIDs(sr.bolt); len(ks) == len(vs) {
+				for i := range ks {
+					if ks[i] != vs[i] {
+						for _, k := range []string{"C09", "C10", "C07"} {
+							sr.extra = append(sr.extra, h.Violation{Key: k + ":stored-value-is-not-the-accepted-update",
+								What: fmt.Sprintf("the history entry with key id %q holds a value whose id is %q: what a replay delivers is not what was accepted", ks[i], vs[i])})
+						}
+
+						break
+					}
+				}
+			}
 			var p []string
 			for i := range seqs {
 				p = append(p, fmt.Sprintf("%d:%s", seqs[i], ids[i]))
@@ -278,6 +293,7 @@ func runSchedCaseT(c *h.Ctx, r *h.Report, cs schedCase) (trace []int, disagreed 
 	sr.emit(h.Line("sys.new", cs.Kind, h.Itoa(cs.Size), "facts"), "ok")
 	steps := 0
 	for pi, ph := range cs.Phases {
+		sr.atRemoval = nil
 		if ph.Restart {
 			sr.tr.Close()
 			sr.open()
@@ -356,6 +372,34 @@ func runSchedCaseT(c *h.Ctx, r *h.Report, cs schedCase) (trace []int, disagreed 
 
 			return label[i]
 		}
+		removeReturned := func(i int) {
+			o := ph.Ops[i]
+			if o.Op != "remove" || rets[i] != "ok" || o.Sub >= len(sr.subs) {
+				return
+			}
+			// C05: what a subscriber holds when its removal returns is all it will ever get — unless its
+			// own registration (history replay) is still under way
+			registered := false
+			for _, p := range ph.Pre {
+				registered = registered || (p.Op == "add" && p.Sub == o.Sub)
+			}
+			for _, t := range sr.traces[tbase:] {
+				if t.op.Op == "add" && t.op.Sub == o.Sub && t.end >= 0 {
+					registered = true
+				}
+				if t.op.Op == "add" && t.op.Sub == o.Sub && t.end < 0 && t.first >= 0 {
+					registered = false
+
+					break
+				}
+			}
+			if registered {
+				if sr.atRemoval == nil {
+					sr.atRemoval = map[int]int{}
+				}
+				sr.atRemoval[o.Sub] = len(sr.recvd[o.Sub]) + mercure.VerifSubPending(sr.subs[o.Sub])
+			}
+		}
 		closeReturned := func(i int) {
 			// C15 at the instant a Close call returns (every other thread is parked): whatever was
 			// registered before THIS call began has been ended — also when another Close is under way
@@ -404,6 +448,7 @@ func runSchedCaseT(c *h.Ctx, r *h.Report, cs schedCase) (trace []int, disagreed 
 				if ph.Ops[i].Op == "close" && ev.Panic == "" {
 					closeReturned(i)
 				}
+				removeReturned(i)
 			}
 			label[i] = ev.Label
 		}
@@ -455,6 +500,9 @@ func runSchedCaseT(c *h.Ctx, r *h.Report, cs schedCase) (trace []int, disagreed 
 				sr.traces[tbase+i].ret = rets[i]
 				if ph.Ops[i].Op == "close" && ev.Panic == "" {
 					closeReturned(i)
+				}
+				if ev.Panic == "" {
+					removeReturned(i)
 				}
 			}
 			moved := "1"
@@ -513,6 +561,9 @@ func runSchedCaseT(c *h.Ctx, r *h.Report, cs schedCase) (trace []int, disagreed 
 	finalObs := ""
 	if !sr.dead && len(sr.panics) == 0 {
 		finalObs = sr.obs()
+		if os.Getenv("VH_DEBUG") != "" {
+			fmt.Fprintln(os.Stderr, "DEBUG obs:", finalObs, "atRemoval:", sr.atRemoval, "dead:", sr.dead)
+		}
 		sr.emit("sys.obs", finalObs)
 	}
 	func() {
@@ -753,9 +804,44 @@ func genCloseCase(rr *h.Rand) schedCase {
 	return cs
 }
 
+// genRemoveCase: registered subscribers, publications racing with the removal of one of them (C05: a removed
+// subscriber receives nothing more; the recipient set is decided atomically with the hand-over).
+func genRemoveCase(rr *h.Rand) schedCase {
+	cs := schedCase{Kind: h.Pick(rr, []string{"bolt", "local", "local"}), Cap: h.Pick(rr, []int{2, 3, 1000})}
+	ph := schedPhase{}
+	ns := 2 + rr.Intn(2)
+	for s := 0; s < ns; s++ {
+		ph.Subs = append(ph.Subs, schedSub{Topics: []int{0}, Req: "-"})
+		ph.Pre = append(ph.Pre, schedOp{Op: "add", Sub: s})
+	}
+	nextID := 1
+	ph.Ops = []schedOp{{Op: "dispatch", ID: nextID, Topic: 0}, {Op: "remove", Sub: rr.Intn(ns)}}
+	nextID++
+	if rr.Bool() {
+		ph.Ops = append(ph.Ops, schedOp{Op: "dispatch", ID: nextID, Topic: 0})
+	}
+	// the publisher gets as far as the lookup of the recipients, then the removal runs to its end
+	k := h.Pick(rr, []int{3, 3, 4, 2, 5})
+	for i := 0; i < k; i++ {
+		ph.Schedule = append(ph.Schedule, 0)
+	}
+	for i := 0; i < 6; i++ {
+		ph.Schedule = append(ph.Schedule, 1)
+	}
+	for i := 0; i < 40; i++ {
+		ph.Schedule = append(ph.Schedule, rr.Intn(len(ph.Ops)))
+	}
+	cs.Phases = []schedPhase{ph}
+
+	return cs
+}
+
 func genSchedCase(rr *h.Rand) schedCase {
 	if rr.Chance(1, 4) {
 		return genJunctionCase(rr)
+	}
+	if rr.Chance(1, 10) {
+		return genRemoveCase(rr)
 	}
 	if rr.Chance(1, 6) {
 		return genCloseCase(rr)
@@ -846,6 +932,9 @@ func genSchedCase(rr *h.Rand) schedCase {
 }
 
 func runSched(c *h.Ctx, r *h.Report) {
+	// one thread of the schedule runs at a time anyway; a single P also makes sync.Pool reuse (and so any
+	// aliasing of pooled objects between operations) deterministic
+	runtime.GOMAXPROCS(1)
 	r.Rule = "controlled schedules at the granularity of synchronisation operations: /repo's bolt.go, local.go and localsubscriber.go are rewritten (go/ast, into a build overlay) so that every lock acquisition, atomic access, channel operation, close, Once.Do, bbolt transaction and subscriber-list call first yields to a cooperative scheduler; exactly one goroutine runs at a time, following a generated schedule (bursts with few preemptions, then round robin; thorough tier: additionally EVERY schedule with at most 2 preemptions of 17 small configurations, enumerated systematically). 2-4 concurrent operations from {Dispatch, AddSubscriber (with/without Last-Event-ID), RemoveSubscriber, Close, GetSubscribers, subscriber Disconnect, consumer receive} on both transports, after a sequential prelude (history, registrations, optional restart), channel capacity in {1,2,3,1000}, retention in {0..3}. The Lean model runs as an acceptor: for every step it must predict the next synchronisation label, whether the thread was blocked, the return value, and at the end the whole observable state. Oracles on the implementation alone: no panic, no deadlock. Non-trivial = schedule with at least one preemption inside an operation; distinct by content."
 	if c.Replay != "" {
 		var rp struct {
@@ -943,6 +1032,9 @@ func schedOracles(sr *schedRun, obs string) (vs []h.Violation) {
 			}
 		}
 		stream := append(list(sb["recv"]), list(sb["out"])...)
+		if n, ok := sr.atRemoval[si]; ok && len(stream)+len(list(sb["lq"])) > n {
+			vs = append(vs, h.Violation{Key: "C05:removed-subscriber-received-an-update-after-its-removal-returned", What: fmt.Sprintf("subscriber %d held %d update(s) when RemoveSubscriber returned and %d at the end: %v", si, n, len(stream)+len(list(sb["lq"])), stream)})
+		}
 		seen := map[string]bool{}
 		for _, id := range stream {
 			if seen[id] {
@@ -982,6 +1074,8 @@ func schedOracles(sr *schedRun, obs string) (vs []h.Violation) {
 					}
 				}
 				if !contiguous && len(seen) == len(stream) {
+					// C06: one order for every subscriber and the history; C07: no gap at the junction
+					vs = append(vs, h.Violation{Key: "C06:stream-order-differs-from-history-order", What: fmt.Sprintf("subscriber %d (Last-Event-ID %q) received %v; the matching stored updates in history order are %v", si, spec.Req, stream, F)})
 					vs = append(vs, h.Violation{Key: "C07:stream-not-a-contiguous-run-of-history", What: fmt.Sprintf("subscriber %d (Last-Event-ID %q) received %v; the matching stored updates in history order are %v", si, spec.Req, stream, F)})
 				}
 				// start of the run
